@@ -135,13 +135,13 @@ class Rig:
         self.s = Peer(self, "s", 2, dict(common, proposedWindowSize=cfg["pws"], maxApduLengthAccepted=cfg.get("s_max", seg),
                                           maxSegmentsAccepted=cfg.get("s_maxsegs", cfg.get("maxsegs", 64)),
                                           segmentationSupported=cfg.get("s_seg", "segmentedBoth")))
-        if cfg.get("known"):
+        self.in_prior = False
+        if cfg.get("known") and cfg.get("reann"):
+            # ... an older I-Am of the server first (other capabilities); the current one arrives later, see prior_exchange
+            self.server_iam(cfg["reann"]["max"], cfg["reann"].get("seg", cfg.get("s_seg", "segmentedBoth")))
+        elif cfg.get("known"):
             # the client has heard the server's I-Am: the library's own DeviceInfoCache.iam_device_info fills the cache
-            from bacpypes.apdu import IAmRequest
-            iam = IAmRequest(iAmDeviceIdentifier=("device", 2), maxAPDULengthAccepted=cfg.get("s_max", seg),
-                             segmentationSupported=cfg.get("s_seg", "segmentedBoth"), vendorID=999)
-            iam.pduSource = self.s.addr
-            self.c.smap.deviceInfoCache.iam_device_info(iam)
+            self.server_iam(cfg.get("s_max", seg), cfg.get("s_seg", "segmentedBoth"))
         if cfg.get("s_knows_c_max"):
             # the server has heard an I-Am of the client (possibly an older one announcing another max APDU length)
             from bacpypes.apdu import IAmRequest
@@ -221,9 +221,46 @@ class Rig:
             ack.pduDestination = apdu.pduSource
             self.c.ase.response(ack)
             return
+        if self.in_prior:
+            ack = SimpleAckPDU(SERVICE, apdu.apduInvokeID)
+            ack.pduDestination = apdu.pduSource
+            self.s.ase.response(ack)
+            return
         toks = self.toks_of_buffer(apdu.pduData, self.req, "CR")
         self.sind.append({"toks": toks, "ok": bytes(apdu.pduData) == self.req})
         self.sapp.append([vt.now + self.cfg.get("app_delay", 0) / 1000.0, apdu])
+
+    def server_iam(self, max_apdu, segsup):
+        from bacpypes.apdu import IAmRequest
+        iam = IAmRequest(iAmDeviceIdentifier=("device", 2), maxAPDULengthAccepted=max_apdu, segmentationSupported=segsup, vendorID=999)
+        iam.pduSource = self.s.addr
+        self.c.smap.deviceInfoCache.iam_device_info(iam)
+
+    def prior_exchange(self):
+        """cfg["reann"]: the client heard an older I-Am of the server; the server's current I-Am reaches the client
+        while an earlier small transaction with that server is outstanding (when = "during") or after it (when = "after").
+        The transaction under test then has to respect the current announcement."""
+        when = self.cfg["reann"].get("when", "during")
+        self.in_prior = True
+        apdu = ConfirmedRequestPDU(SERVICE)
+        apdu.pduDestination = self.s.addr
+        apdu.put_data(b"\x09\x01")
+        self.c.ase.request(apdu)
+        if when == "during":
+            self.server_iam(self.cfg.get("s_max", self.cfg["seg"]), self.cfg.get("s_seg", "segmentedBoth"))
+        for _ in range(10):
+            if not self.net:
+                break
+            octets, at, d, h = self.net.pop(0)
+            dst, src = (self.s, self.c) if d == "cs" else (self.c, self.s)
+            dst.receive(octets, src.addr)
+        vt.step_all()
+        if when != "during":
+            self.server_iam(self.cfg.get("s_max", self.cfg["seg"]), self.cfg.get("s_seg", "segmentedBoth"))
+        self.in_prior = False
+        self.net, self.tx, self.wire, self.cout, self.sind, self.sapp, self.evs = [], [], [], [], [], [], []
+        self.frame_no = 0
+        self.chunk = {"CR": None, "CA": None}
 
     def pre_exchange(self):
         """Before the transaction under test the server node sends the client node a small confirmed request of its own
@@ -244,8 +281,8 @@ class Rig:
         self.chunk = {"CR": None, "CA": None}
 
     def on_confirmation(self, peer, apdu):
-        if peer is self.s:
-            return                      # outcome of the role-reversed request of pre_exchange
+        if peer is self.s or self.in_prior:
+            return                      # outcome of the role-reversed request of pre_exchange / of prior_exchange
         if isinstance(apdu, (SimpleAckPDU, ComplexAckPDU)):
             k = "ack"
         elif isinstance(apdu, (ErrorPDU, RejectPDU)):
